@@ -334,7 +334,10 @@ def export_shapes(tier):
     add('x-gens-basic', atm=0, generators=[dict(type='MASS', block='sym', name=' ge 1'), dict(type='HEAT', block=2, name=' ge 1', hg=None, fg=None),
                                             dict(type='COM1', block=2, name=' ge 1', hg=None, fg=None), dict(type='DELV', block=0, name=' ge 4')], parts=['generators'])
     add('x-json-whole', atm=1, eos=dict(mode='multi'), generators=[dict(type='MASS', block=3, gx=-2.5, hg=None, fg=None), dict(type='DELG', block='sym', fg=0., hg=0.)], parts=['json'])
+    # the whole export with a non-default boundary threshold: rocks and boundaries must use the same one
+    add('x-json-partition-smallatm', atm=2, volumes='sym', atmos_volume=1.e6, eos=dict(mode='multi'), parts=['json'])
     if tier == 'thorough':
+        add('x-json-partition-bigatm', atm=1, volumes='sym', atmos_volume=1.e30, eos=dict(mode='multi'), parts=['json'])
         for atm in (0, 1):
             for order in (None, 'dmplex'):
                 add('x-partition-atm%d-%s' % (atm, order or 'layer_column'), atm=atm, order=order, volumes='sym', parts=['rocks', 'boundaries'])
